@@ -606,6 +606,48 @@ def run(ctx):
                            construct='%s -> %s(%s=)' % (q_, c_.func.attr, k_.arg))
     ctx.holds('R18t', pim, None, '%d forwarded option default(s) compared' % n_fo, construct='forwarded defaults scan', trivial=True)
 
+    # ---- R18x: the double unwrap happens only for a group that holds nothing but the inner group
+    ctx.rule('R18x', 'SingleParsedArgumentInfo: a method hands back the node list of an inner node taken from position 0 of the '
+                     'argument group (`<g>.nodelist[0].nodelist`, the "double unwrap" of `[{[}]`) only on a path that has '
+                     'established `len(<g>.nodelist) == 1`: with more nodes in the group (`[{a}=1,b=2]`) the rest of the '
+                     'argument would vanish from what split_at_chars / parse_content_as_keyval see', 1)
+    n_du = 0
+    for q_, f_ in sorted(pim.functions.items()):
+        if not q_.startswith('SingleParsedArgumentInfo.'):
+            continue
+        ldefs_ = {}
+        for a_ in iter_own(f_):
+            if isinstance(a_, ast.Assign) and len(a_.targets) == 1 and isinstance(a_.targets[0], ast.Name):
+                ldefs_.setdefault(a_.targets[0].id, []).append(a_.value)
+
+        def _first_of(e_):
+            # e_ is `<g>.nodelist[0]` -> text of <g>.nodelist
+            if isinstance(e_, ast.Subscript) and isinstance(e_.slice, ast.Constant) and e_.slice.value == 0 and \
+                    isinstance(e_.value, ast.Attribute) and e_.value.attr == 'nodelist':
+                return unparse(e_.value)
+            return None
+        for r_ in iter_own(f_):
+            if not (isinstance(r_, ast.Return) and isinstance(r_.value, ast.Attribute) and r_.value.attr == 'nodelist'):
+                continue
+            inner_ = r_.value.value
+            srcs_ = [inner_]
+            if isinstance(inner_, ast.Name):
+                srcs_ = ldefs_.get(inner_.id, [])
+            outer_ = [t_ for t_ in (_first_of(e_) for e_ in srcs_) if t_]
+            if not outer_:
+                continue
+            n_du += 1
+            facts_ = {(unparse(t_), pol_) for t_, pol_ in atomic_facts(r_)}
+            ok_ = all(('len(%s) == 1' % o_, True) in facts_ or ('1 == len(%s)' % o_, True) in facts_ or
+                      ('len(%s) != 1' % o_, False) in facts_ for o_ in outer_)
+            ctx.decide('R18x', ok_, pim, r_, '%s: inner node list returned only for a one-node group' % q_,
+                       '%s returns the node list of %s[0] on a path that has not established len(%s) == 1: for an argument '
+                       'such as `[{a}=1,b=2]` the content node list is only `a`, and the keys and separators after the inner '
+                       'group are lost to split_at_chars and parse_content_as_keyval' % (q_, outer_[0], outer_[0]),
+                       construct='%s: double unwrap' % q_)
+    if not n_du:
+        ctx.unknown('R18x', pim, None, 'no double unwrap found in SingleParsedArgumentInfo', construct='double unwrap')
+
     # ---- R18n: None placeholders in a node list
     ctx.rule('R18n', 'a loop over a node list that compares its element with None reads attributes of the element only '
                      'where it is known not to be None (grules.loop_var_none_deref, per path)', 0)
